@@ -67,6 +67,9 @@ type Database struct {
 // OpenFile opens a .sqlite file. This is the main entry point.
 // Use database.Close() when done.
 func OpenFile(f string) (*Database, error) {
+	if h := verifOpenFileHook; h != nil {
+		return h(f)
+	}
 	l, err := newFilePager(f)
 	if err != nil {
 		return nil, err
